@@ -119,6 +119,11 @@ def worker(task):
             if "error" in e or "hex" not in e:
                 continue  # value not expressible through the generated constructors
             res["nontrivial"].add(common.h(d["name"], tid, want, fl))
+            if fl == "asan" and len(e["hex"]) == len(want) and builder_context(m, tid) is None:
+                # C17 judges the implementation's own bytes under both byte orders, right or wrong against
+                # the reference (only the layout - where the runs are - comes from the model); types with a
+                # recorded builder defect that moves fields around are left out
+                res["c17"].append((tid, json.dumps(v, sort_keys=True), e["hex"], [(s.off, s.len) for s in enc.segs]))
             if e["hex"] != want:
                 if empty_elementsize_array(m, tid, v):
                     res["abstain"] += 1   # element size of an empty array: the reference is silent
@@ -127,7 +132,6 @@ def worker(task):
                 V("C14", "wrong-bytes|%s" % (builder_context(m, tid) or rustwl._locate(m, enc, off)),
                   dict(case, observed=e["hex"], first_diff=off))
             elif fl == "asan":
-                res["c17"].append((tid, json.dumps(v, sort_keys=True), e["hex"], [(s.off, s.len) for s in enc.segs]))
                 res["c07"].setdefault(tid, []).append((json.dumps(v, sort_keys=True), e["hex"]))
             if e.get("size") != len(e["hex"]) // 2:
                 V("C14", "GetSize-differs-from-serialized-length|%s" % cons, dict(case, observed={"size": e.get("size"), "len": len(e["hex"]) // 2}))
